@@ -3,6 +3,7 @@
   Decision logic stated outright; for signatures of any length (the per-position function is mapped over the list).
 -/
 import MTVerif.Model.Anno
+import MTVerif.Lemmas.FuncDef
 namespace MT.C13
 open MT MT.Anno
 
@@ -77,5 +78,32 @@ theorem plain_return (st : Strategy) (src : Option Nat) (r : Ty) (h : src = none
 /-- an annotated parameter whose default is None is shown as Optional of its annotation (unless it already is one) -/
 theorem optional_for_none_default (a : Ann) : showsOptional false true (some a) = true := rfl
 theorem no_optional_without_annotation : showsOptional false true none = false := rfl
+
+/-! ### whole functions (`get_updated_definition`, Model/FuncDef): whatever the traces and the rewriter -/
+
+section
+open MT.FuncDef
+
+/-- default mode: a parameter annotated in the source keeps that annotation in the definition, whatever was traced for it -/
+theorem definition_keeps_source_annotation (h : Hier) (chain : List RW) (k : Nat) (f : FuncSrc) (traces : List CTrace)
+    (i : Nat) (p : SrcParam) (a : Nat) (hp : f.params[i]? = some p) (ha : p.src = some a) :
+    (updatedDefinition h chain k .replicate f traces).params[i]? = some (p.name, some (.src a)) := by
+  simp only [updatedDefinition, List.getElem?_map, List.getElem?_zipIdx, hp, Option.map_some, Nat.zero_add]
+  rw [replicate_keeps _ a (by simpa [posOf] using ha)]
+
+/-- omit mode: a parameter annotated in the source carries no annotation in the definition -/
+theorem definition_omits_annotated (h : Hier) (chain : List RW) (k : Nat) (f : FuncSrc) (traces : List CTrace)
+    (i : Nat) (p : SrcParam) (a : Nat) (hp : f.params[i]? = some p) (ha : p.src = some a) :
+    (updatedDefinition h chain k .omit f traces).params[i]? = some (p.name, none) := by
+  simp only [updatedDefinition, List.getElem?_map, List.getElem?_zipIdx, hp, Option.map_some, Nat.zero_add]
+  rw [omit_blank _ a (by simpa [posOf] using ha)]
+
+/-- the return position of a whole function: kept in default mode, blank in omit mode, whatever was traced -/
+theorem definition_return_annotated (h : Hier) (chain : List RW) (k : Nat) (f : FuncSrc) (traces : List CTrace) (a : Nat)
+    (ha : f.retSrc = some a) :
+    (updatedDefinition h chain k .replicate f traces).ret = some (.src a) ∧ (updatedDefinition h chain k .omit f traces).ret = none := by
+  simp [updatedDefinition, ha, return_replicate_keeps, return_omit_blank]
+
+end
 
 end MT.C13
